@@ -200,7 +200,7 @@ PARTIAL_FAMILIES = {
     **{k: 'bucklin_n_shape (exactly n places) is FALSE of the code (bucklin_n_short_witness / bucklin_short_witness: fewer than n candidates ever '
           'pass the majority quota; open finding C08-preference-addition-short-list); proved for every n, every coefficient function, with and '
           'without splitting of shared ranks: bucklin_n_shape_partial (everything but the length), bucklin_n_one_tie (a short answer has no tie), '
-          'bucklin_n_answers + bucklin_n_refusals (no error outcome)' for k in ('bucklin', 'oklahoma')},
+          'bucklin_n_answers + bucklin_n_refusals (no error outcome)' for k in ('bucklin', 'oklahoma', 'bucklin_whole', 'oklahoma_whole')},
 }
 UNPROVED = []
 UNMODELLED = []
@@ -483,7 +483,8 @@ def pa_passing(case):
     """PreferenceAddition (Bucklin / Oklahoma, shared ranks split evenly over their orders): the number of candidates whose cumulated
     preference total after the LAST round exceeds half the votes.  A candidate of a shared rank of size g starting at place s stands at
     each of the places s..s+g-1 in the same share of the orders, so its coefficient is the average over those places."""
-    coef = (lambda i: Fraction(1)) if case['family'] == 'bucklin' else (lambda i: Fraction(1, i + 1))
+    coef = (lambda i: Fraction(1)) if case['family'].startswith('bucklin') else (lambda i: Fraction(1, i + 1))
+    whole = case['family'].endswith('_whole')      # split_equal_rankings=False: a shared rank is ONE place, every member gets it in full
     tot, total_w = {}, Fraction(0)
     for b, w in case['prof']:
         w = Fraction(w)
@@ -491,10 +492,10 @@ def pa_passing(case):
         pos = 0
         for it in b:
             g = it if isinstance(it, list) else [it]
-            avg = sum(coef(pos + j) for j in range(len(g))) / len(g)
+            avg = coef(pos) if whole else sum(coef(pos + j) for j in range(len(g))) / len(g)
             for c in g:
                 tot[c] = tot.get(c, 0) + w * avg
-            pos += len(g)
+            pos += 1 if whole else len(g)
     return sum(1 for v in tot.values() if v > total_w / 2)
 
 
@@ -590,7 +591,7 @@ def signature(case, clause):
     f = case['family']
     if clause == 'undeclared_exception:ZeroDivisionError' and zero_quota(case):
         return 'shape:largest_remainder_family:zero_quota:' + clause
-    grp = 'largest_remainder_family' if f.startswith(('lr_', 'qd_')) else 'preference_addition' if f in ('bucklin', 'oklahoma') else 'ranked_pairs' if f.startswith('condorcet_rankedpairs') else f
+    grp = 'largest_remainder_family' if f.startswith(('lr_', 'qd_')) else 'preference_addition' if f in ('bucklin', 'oklahoma', 'bucklin_whole', 'oklahoma_whole') else 'ranked_pairs' if f.startswith('condorcet_rankedpairs') else f
     try:
         if grp == 'preference_addition' and clause == 'wrong_length':
             obs = impl(case)
@@ -668,8 +669,8 @@ def model_line(case):
         return line
     if f == 'baldwin':
         return {'op': 'baldwin', 'votes': case['prof'], 'n': case['n']}
-    if f in ('bucklin', 'oklahoma'):
-        return {'op': 'preference_addition', 'votes': case['prof'], 'n': case['n'], 'coef': f, 'split': True}
+    if f in ('bucklin', 'oklahoma', 'bucklin_whole', 'oklahoma_whole'):
+        return {'op': 'preference_addition', 'votes': case['prof'], 'n': case['n'], 'coef': f.split('_')[0], 'split': not f.endswith('_whole')}
     if f == 'aux_input_order':
         return {'op': 'input_order', 'votes': case['prof'], 'n': case['n']}
     if f in ('aux_sortitor', 'aux_random_ballot'):
@@ -758,7 +759,7 @@ def compare(case, iobs, mobs):
                 return None
         a, b = sel_unordered(iobs), sel_unordered(mobs)
         return None if a == b else f'impl={json.dumps(a)} model={json.dumps(b)} (order-insensitive: frozenset ballots)'
-    if (case['family'] in POSITIONAL + ('baldwin', 'bucklin', 'oklahoma') and has_shared(case['prof'])) or case['family'] in ('approval_av', 'approval_sav'):
+    if (case['family'] in POSITIONAL + ('baldwin', 'bucklin', 'oklahoma', 'bucklin_whole', 'oklahoma_whole') and has_shared(case['prof'])) or case['family'] in ('approval_av', 'approval_sav'):
         a, b = sel_unordered(iobs), sel_unordered(mobs)
         return None if a == b else f'impl={json.dumps(a)} model={json.dumps(b)} (order-insensitive: frozenset ballots)'
     if case['family'].startswith('condorcet_') and not case['family'].startswith('condorcet_winner'):
